@@ -147,6 +147,13 @@ def boot (files written delivered : List Nat) : Sys :=
     pub := { files, completed := (load files).toList, inflight := [], removes := [], notifs := [],
              written, delivered } }
 
+/-- a new `Store` running `LoadCheckpoint` with `SavepointURI` set to the savepoint of checkpoint `id`, on a
+storage holding the job snapshot files `files` (not consulted on this path): the savepoint becomes the current
+checkpoint and the id counter -/
+def bootSavepoint (id : Nat) (files written delivered : List Nat) : Sys :=
+  { store := Store.loadFromSavepoint id,
+    pub := { files, completed := [id], inflight := [], removes := [], notifs := [], written, delivered } }
+
 /-- the job starts on storage that already holds the snapshot files `files0` -/
 def init (files0 : List Nat) : Sys := boot files0 files0 []
 
